@@ -49,6 +49,13 @@ def ev_request(client, method, params, tag=None):
     return E(f'{client}:{method.split(".")[-1]}', f)
 
 
+def ev_connect(name):
+    '''A new client connects (nothing runs until the scheduler lets it).'''
+    def f(s):
+        s.x_clients[name] = system.Client(s, name=name)
+    return E(f'{name}:connect', f)
+
+
 def ev_forced_reorg(n):
     return ev_request('rpc', 'reorg', [n])
 
@@ -208,6 +215,13 @@ def scenarios():
         ev_request('c2', 'blockchain.scripthash.get_history', [sh('A')]),
         ev_state('block(t1)', blocks=extended([('t1',)]), names=()), T, T, T, T,
         ev_request('c2', 'blockchain.scripthash.subscribe', [sh('A')], tag='sub'), T])
+    # a NEW client connects and subscribes around the block that changes the script
+    out['late-connect'] = dict(subs={'c1': ('A',), 'c2': ()}, mempool0=('t1',), script=lambda: [
+        ev_state('block(t1)', blocks=extended([('t1',)]), names=()), T, T, T, T,
+        ev_connect('c3'),
+        ev_request('c3', 'server.version', ['c3', '1.4.2']),
+        ev_request('c3', 'blockchain.headers.subscribe', []),
+        ev_request('c3', 'blockchain.scripthash.subscribe', [sh('A')], tag='sub'), T, T, T])
     return out
 
 
@@ -407,6 +421,19 @@ def judge_c10(run, res, clients=('c2', 'fresh')):
                                                            want=sorted(want_u)[:6])))
         for h in range(max(0, tip - (3 if cname != 'fresh' else 0)), tip + 1):
             ids = [t.txid[::-1].hex() for t in blocks[h].txs]
+            # first with proofs (these populate and use the per-block caches), then without -
+            # the answers must not depend on which queries were made before
+            for pos in range(len(ids) + 1):
+                r = c.call('blockchain.transaction.id_from_pos', [h, pos, True])
+                res.count('queries_judged')
+                if pos < len(ids):
+                    got = r.get('result')
+                    if not isinstance(got, dict) or got.get('tx_hash') != ids[pos]:
+                        failures.append(('stale-id_from_pos', dict(client=cname, height=h, pos=pos,
+                                                                   merkle=True, got=str(got or r.get('error'))[:200])))
+                elif 'error' not in r:
+                    failures.append(('id_from_pos-beyond-block-answered', dict(client=cname, height=h,
+                                                                               merkle=True)))
             for pos in range(len(ids) + 1):
                 r = c.call('blockchain.transaction.id_from_pos', [h, pos, False])
                 res.count('queries_judged')
